@@ -9,6 +9,8 @@ def extend(table):
     table["C14"] = [wide.run]
     table["C12"] = [fsm.prop_generic, wide.run]
     table["C13"] = table["C13"] + [wide.run]
+    for p in ("C08", "C09", "C10"):
+        table[p] = table[p] + [wide.run_plans]
     table["C16"] = [fsm.prop_c16]
     table["C17"] = [fsm.prop_c17]
     table["C18"] = [fsm.prop_c18]
